@@ -72,10 +72,17 @@ def confirm(mid):
     m = load_meta(mid)
     patch = os.path.join(d, "patch.diff")
     feats = "serde,rayon"
+    # a change confined to src/histogram_const.rs is only compiled by the nightly toolchain with --features nightly
+    ptxt = open(patch).read()
+    touched = set(re.findall(r"^diff --git a/(\S+)", ptxt, re.M))
+    nightly = touched == {"src/histogram_const.rs"}
+    cargo = ["cargo", "+nightly"] if nightly else ["cargo"]
+    if nightly:
+        feats = "nightly,serde,rayon"
     demo_t = os.path.join(WT, "tests", "demo_mut.rs")
     # 1. demo passes without the patch
     shutil.copy(os.path.join(d, "demo.rs"), demo_t)
-    rc0, out0 = sh(["cargo", "test", "--offline", "--features", feats, "--test", "demo_mut"], cwd=WT)
+    rc0, out0 = sh(cargo + ["test", "--offline", "--features", feats, "--test", "demo_mut"], cwd=WT)
     # 2. apply patch: suite passes, demo fails
     rc, out = sh(["git", "apply", patch], cwd=WT)
     if rc != 0:
@@ -86,8 +93,10 @@ def confirm(mid):
         return m
     os.remove(demo_t)
     rc1, out1 = sh(["cargo", "test", "--workspace", "--no-fail-fast", "--offline"], cwd=WT)
+    if nightly and rc1 == 0:
+        rc1, out1 = sh(cargo + ["test", "--workspace", "--no-fail-fast", "--offline", "--features", "nightly"], cwd=WT)
     shutil.copy(os.path.join(d, "demo.rs"), demo_t)
-    rc2, out2 = sh(["cargo", "test", "--offline", "--features", feats, "--test", "demo_mut"], cwd=WT)
+    rc2, out2 = sh(cargo + ["test", "--offline", "--features", feats, "--test", "demo_mut"], cwd=WT)
     m["confirm"] = {
         "demo_without_patch": "pass" if rc0 == 0 else "FAIL",
         "suite_with_patch": "pass" if rc1 == 0 else "FAIL",
